@@ -1,6 +1,8 @@
 package c17
 
 import (
+	"context"
+	"fmt"
 	"hash/fnv"
 	"testing"
 
@@ -60,5 +62,99 @@ func TestReplayTies(t *testing.T) {
 			}
 		}
 		vstat.Case(len(ids) >= 3, vstat.Hash("replay-ties", q(ids)), nil, "replay")
+	}
+}
+
+// replayAlias builds the three-node cluster {X, X:8081, C} over loopback (host names resolved by the
+// harness), configures C as given, and sends an allocation for a subscriber owned by X in through C and
+// through X.  It asserts through the same signatures as the generated search: silent while the finding
+// is listed (STALE if it no longer fires), a VIOLATION once it is not.
+func replayAlias(t *testing.T, cfgC []string, addC []string, wantSig string) {
+	t.Helper()
+	ids := []string{"bng-x", "bng-x:8081", "core-c:9000"}
+	plan := relPlan{style: "replay", named: true, ids: func(int) []string { return ids }}
+	full := relCfg{Order: []int{0, 1, 2}, FromConfig: 3, DupAdd: -1}
+	c := buildRelCluster(t, plan, []relCfg{full, full, full})
+	if c == nil {
+		t.Skip("INCONCLUSIVE: no loopback listener")
+	}
+	defer c.close()
+	// node C as the finding describes it (buildRelCluster's generic shapes cannot say "cfg [..] then AddPeer [..]" directly)
+	pc := newPool(t, ids[2], cfgC, "10.99.0.0/24")
+	for _, x := range addC {
+		pc.AddPeer(x)
+	}
+	pc.VerifSetTransport(c.tr)
+	c.pools[2], c.cfgd[2], c.added[2] = pc, cfgC, addC
+
+	fired := false
+	fail := func(sig, format string, args ...any) {
+		if sig == wantSig {
+			fired = true
+		}
+		vstat.Fail(t, sig, format, args...)
+	}
+	// pure: every member resolves to itself
+	for _, m := range ids {
+		if got := pc.VerifPeerAddr(m); got != m {
+			fail(addrSig(m, got, cfgC), "node %q (cfg.Peers=%s then AddPeer %s) resolves member %q to the address %q", ids[2], q(cfgC), q(addC), m, got)
+		}
+	}
+	// end to end: a subscriber every node assigns to X, entering at C and at X
+	ctx := context.Background()
+	for k := 0; k < 400; k++ {
+		sub := fmt.Sprintf("sub-%d", k)
+		if c.pools[0].GetOwner(sub) != ids[0] || pc.GetOwner(sub) != ids[0] || c.pools[1].GetOwner(sub) != ids[0] {
+			continue
+		}
+		viaC, err := pc.Allocate(ctx, sub, nil)
+		if err != nil {
+			t.Fatalf("INCONCLUSIVE: allocate via C: %v", err)
+		}
+		viaX, err := c.pools[0].Allocate(ctx, sub, nil)
+		if err != nil {
+			t.Fatalf("INCONCLUSIVE: allocate via X: %v", err)
+		}
+		if viaC.NodeID != viaX.NodeID {
+			fail(addrSig(ids[0], viaC.NodeID, cfgC), "%q is owned by %q on every node; entering at %q it is served by %q, entering at %q by %q; pools holding it: %v",
+				sub, ids[0], ids[2], viaC.NodeID, ids[0], viaX.NodeID, c.holders(sub))
+		}
+		break
+	}
+	vstat.Case(true, vstat.Hash("replay-alias", q(cfgC), q(addC)), nil, "replay")
+	if vstat.IsListed(wantSig) && !fired {
+		t.Errorf("STALE known finding: cfg.Peers=%s then AddPeer %s no longer produces %s", q(cfgC), q(addC), wantSig)
+	}
+}
+
+// KF-C17-1: X:8081 listed before X in cfg.Peers of a node that does not list itself.
+func TestReplayAliasBothListed(t *testing.T) {
+	replayAlias(t, []string{"bng-x:8081", "bng-x"}, nil, sigAliasListed)
+}
+
+// KF-C17-2: X:8081 configured, X learnt through AddPeer.
+func TestReplayAliasAddedAtRuntime(t *testing.T) {
+	replayAlias(t, []string{"bng-x:8081"}, []string{"bng-x"}, sigAliasAdded)
+}
+
+// The same two shapes without the ":8081" coincidence must resolve correctly (guards the classification:
+// a prefix / suffix confusion would not be filed under the listed alias signatures).
+func TestReplayRelatedIdsResolve(t *testing.T) {
+	for _, cs := range [][2][]string{
+		{{"127.0.0.1:40010", "127.0.0.1:4001"}, nil},
+		{{"127.0.0.1:40010"}, {"127.0.0.1:4001"}},
+		{{"xbng-1:8081", "bng-1:8081"}, nil},
+		{{"bng-10:8081"}, {"bng-1"}},
+	} {
+		p := newPool(t, "core-c:9000", cs[0], "")
+		for _, x := range cs[1] {
+			p.AddPeer(x)
+		}
+		for _, m := range append(append([]string{}, cs[0]...), cs[1]...) {
+			if got := p.VerifPeerAddr(m); got != m {
+				vstat.Fail(t, addrSig(m, got, cs[0]), "node core-c:9000 (cfg.Peers=%s then AddPeer %s) resolves member %q to the address %q", q(cs[0]), q(cs[1]), m, got)
+			}
+		}
+		vstat.Case(true, vstat.Hash("replay-related", q(cs[0]), q(cs[1])), nil, "replay")
 	}
 }
